@@ -562,6 +562,21 @@ def run(chk):
     if len(lab) != 1 or len(happy) != 1 or happy[0] > lab[0]:
         raise core.AnalysisBroken("loadCOMPDAT: the happy-path test / CF_done label were not recognised")
 
+    # the equivalent radius: defaulted from the cell only on the computing path; on the explicit CF & Kh path it stays
+    # unset until the block at the label derives it from CF and Kh
+    r_r0 = chk.rule("C06.r0path", "loadCOMPDAT: the default `r0 = effectiveRadius(K, D)` (under r0 < 0) is taken AFTER the explicit-CF-and-Kh test has jumped to the finishing label, so that for explicit CF and Kh with a defaulted r0 the block at the label derives r0 from CF, Kh, rw and skin (inverse Peaceman) - otherwise the stored r0 is the cell's radius and CF (ln(r0 / rw) + S) = 2 pi Kh fails for the stored values; and that block exists under `r0 < 0`", floor=2)
+    dflt = [i for i, s_ in enumerate(body_) if s_["k"] == "If" and re.search(r"\.r0 < 0", show(s_["cond"])) and "effectiveRadius" in show(s_["then"])]
+    inv_ = [i for i, s_ in enumerate(body_) if s_["k"] == "If" and re.search(r"\.r0 < 0", show(s_["cond"])) and "inverse_peaceman" in show(s_["then"])]
+    if not inv_:
+        # the statement right after the label may be carried by the Label node itself
+        inv_ = [i for i, s_ in enumerate(body_) if "Label" in s_["k"] and re.search(r"\.r0 < 0", show(s_)) and "inverse_peaceman" in show(s_)]
+    chk.instance(r_r0, "default", sample=dict(default_at=dflt, shortcut_at=happy, label_at=lab))
+    if len(dflt) != 1 or not (happy[0] < dflt[0] < lab[0]):
+        chk.violation(r_r0, "default", "loadCOMPDAT takes the default equivalent radius at statement(s) %s of the layer loop, the explicit CF / Kh shortcut is statement %s and the finishing label statement %s: the default must lie between them" % (dflt, happy[0], lab[0]), lcb["file"], body_[dflt[0]]["l"] if dflt else lcb["l"])
+    chk.instance(r_r0, "derive", sample=dict(derive_at=inv_))
+    if len(inv_) != 1 or inv_[0] < lab[0]:
+        chk.violation(r_r0, "derive", "loadCOMPDAT no longer derives a defaulted r0 from CF and Kh (inverse_peaceman under r0 < 0) at the finishing label (found at %s, label at %s)" % (inv_, lab[0]), lcb["file"], lcb["l"])
+
     def mono_mul(a, b, sg=1):
         if a is None or b is None:
             return None
